@@ -1,4 +1,34 @@
-(* placeholder until the composition theorems are in place *)
-From GT Require Import Validate.
-Example C14_pending_c14 : True. Proof. exact I. Qed.
-Print Assumptions C14_pending_c14.
+(* C14 — the verdict is invariant under meaning-preserving rewrites of document and schema.
+   Theorems: invariance of every rule's SPECIFICATION predicate under permutation of the
+   top-level definitions of the document and under permutation of the schema's definitions,
+   and, through the per-rule equivalences (C04, C06–C11), of the MODEL's per-rule verdicts. *)
+From GT Require Import Visitor Validate.
+From Coq Require Import Permutation.
+From GTS Require Import Annot WfSchema SpecRules SpecValid.
+From GTP Require Import C14_proofs.
+
+(* permuting the definitions of the document does not change any rule's specification verdict *)
+Theorem C14_spec_perm_definitions : forall r s d d',
+  Permutation d d' -> distinct_fragments d = true ->
+  violated r s d = violated r s d'.
+Proof. exact violated_perm_definitions. Qed.
+Print Assumptions C14_spec_perm_definitions.
+
+(* hence the model's rules (all but field merging, whose equivalence is partial) report on d iff
+   they report on the permuted document, on well-formed input where the rule is in scope *)
+Theorem C14_model_perm_definitions : forall r s d d',
+  r <> R_OverlappingFieldsCanBeMerged ->
+  wf_schema s = true -> doc_types_proper d = true -> defaults_const d = true ->
+  distinct_fragments d = true -> distinct_operations d = true -> rule_in_scope r s d = true ->
+  Permutation d d' ->
+  (run_alone r s d = [] <-> run_alone r s d' = []).
+Proof. exact run_alone_perm_definitions. Qed.
+Print Assumptions C14_model_perm_definitions.
+
+(* permuting the definitions of a well-formed schema does not change any rule's specification
+   verdict either *)
+Theorem C14_spec_perm_schema : forall r s s' d,
+  Permutation s s' -> wf_schema s = true ->
+  violated r s d = violated r s' d.
+Proof. exact violated_perm_schema. Qed.
+Print Assumptions C14_spec_perm_schema.
